@@ -85,16 +85,16 @@ theorem parse_serialize (f : Frame) (b : Bytes) (hwf : f.WF) (h : serializeFrame
 
 /-- … for the TLS export: a frame of `Pipeline` comes back as the same `OutPkt` (flags as the low eight bits). -/
 theorem parse_serialize_outpkt (p : Pipeline.OutPkt) (b : Bytes) (hwf : (Frame.ofOutPkt p).WF) (hfl : p.flags < 256)
-    (h : serialize p = .ok b) :
+    (htcp : p.udp = false) (h : serialize p = .ok b) :
     ∃ q, parse b = some q ∧
       q.l4 = .tcp p.seq p.ack 5 0 p.flags 8192 0 [] ∧
-      (⟨p.ts, q.srcMac, q.dstMac, ⟨q.src, q.sport⟩, ⟨q.dst, q.dport⟩, q.v6, p.flags, p.seq, p.ack, q.payload⟩
+      (⟨p.ts, q.srcMac, q.dstMac, ⟨q.src, q.sport⟩, ⟨q.dst, q.dport⟩, q.v6, p.flags, p.seq, p.ack, q.payload, false⟩
         : Pipeline.OutPkt) = p := by
   obtain ⟨seg, hp⟩ := parse_serialize _ b hwf h
   refine ⟨_, hp, ?_, ?_⟩
-  · simp only [Frame.ofOutPkt]
+  · simp only [Frame.ofOutPkt, htcp, Bool.false_eq_true, if_false]
     rw [show p.flags % 512 / 256 = 0 by omega, show p.flags % 256 = p.flags by omega]
-  · rfl
+  · cases p; simp only [Frame.ofOutPkt] at *; subst htcp; rfl
 
 /-! ### checksums -/
 
